@@ -69,6 +69,8 @@ def case_sig(row, variants):
     s = "kind=%s path=%s" % (c["kind"], generic_path(c["p"]))
     if c["kind"] in ("ph", "emb"):
         s += " src=%s set=%d" % (c["src"], int(c["set"]))
+    if c["kind"] == "unknown":
+        s += " value=%s" % c["src"]
     if c["kind"] == "phadv":
         s += " src=%s scenario=%d" % (c["src"], c["x"])
     if c["kind"] == "range":
